@@ -94,8 +94,12 @@ func c15funcsOf(v ssa.Value) []*ssa.Function {
 
 // c15callees: the repository functions a call can enter: the static callee, or what a function-typed value denotes.
 func c15callees(cc *ssa.CallCommon) []*ssa.Function {
-	if cc == nil || cc.IsInvoke() {
+	if cc == nil {
 		return nil
+	}
+	if cc.IsInvoke() {
+		// a method of an interface declared in the repository: the implementations the receiver can have
+		return c15dyn(cc).repoFns()
 	}
 	if sc := cc.StaticCallee(); sc != nil {
 		sc = unwrap(sc)
@@ -109,6 +113,10 @@ func c15callees(cc *ssa.CallCommon) []*ssa.Function {
 		if isRepoFn(f) && len(f.Blocks) > 0 {
 			out = append(out, f)
 		}
+	}
+	if len(out) == 0 {
+		// a function taken from a list of functions
+		return c15dyn(cc).repoFns()
 	}
 	return out
 }
@@ -201,8 +209,8 @@ func c15must(i ssa.Instruction, pred func(ssa.Instruction) bool) bool {
 		return false
 	}
 	gs := c15callees(&call.Call)
-	if len(gs) == 0 {
-		return false
+	if len(gs) == 0 || len(c15dyn(&call.Call).exts()) > 0 {
+		return false // (a dynamic call that can also enter code outside the repository)
 	}
 	for _, g := range gs {
 		if !mustExec(g, pred, 1) {
@@ -328,11 +336,17 @@ func c15derives(v ssa.Value, pred func(ssa.Value) bool) bool {
 			return true
 		}
 		call, ok := x.(*ssa.Call)
-		if !ok || call.Call.IsInvoke() || call.Call.StaticCallee() != nil || seen[x] {
+		if !ok || call.Call.StaticCallee() != nil || seen[x] {
 			return false
 		}
 		seen[x] = true
-		for _, g := range c15funcsOf(call.Call.Value) {
+		var gs []*ssa.Function
+		if call.Call.IsInvoke() {
+			gs = c15dyn(&call.Call).repoFns() // the implementations behind an interface of the repository
+		} else if gs = c15funcsOf(call.Call.Value); len(gs) == 0 {
+			gs = c15dyn(&call.Call).repoFns() // a function taken from a list
+		}
+		for _, g := range gs {
 			found := false
 			eachInstr(g, func(i ssa.Instruction) {
 				if r, ok := i.(*ssa.Return); ok && !found {
